@@ -284,6 +284,31 @@ def inventory(repo: str):
                             rhs = ast.unparse(n.value) if getattr(n, "value", None) is not None else ""
                             keys.append((fname, f"{cls.name}.{meth.name}", "slot " + t.attr, "assign",
                                          rhs + (" WHEN " + " and ".join(reversed(conds)) if conds else "")))
+    # ReferencingValue(scope, name): a write through it lands in `scope`.  The scope must be one that
+    # belongs to the module being checked -- never the class-level StackedScopes._builtin_scope, which is
+    # shared by every visitor and Checker.  Every construction is listed with the expression that yields
+    # the scope (and its single assignment when it is a local name).
+    for fname, tree in trees:
+        if fname not in ("name_check_visitor.py", "stacked_scopes.py"):
+            continue
+        par = {}
+        for n in ast.walk(tree):
+            for c in ast.iter_child_nodes(n):
+                par[c] = n
+        for n in ast.walk(tree):
+            if isinstance(n, ast.Call) and _name(n.func) == "ReferencingValue" and n.args:
+                fn = n
+                while fn in par and not isinstance(fn, (ast.FunctionDef, ast.AsyncFunctionDef)):
+                    fn = par[fn]
+                a0 = n.args[0]
+                text = ast.unparse(a0)
+                if isinstance(a0, ast.Name) and isinstance(fn, (ast.FunctionDef, ast.AsyncFunctionDef)):
+                    rhs = [ast.unparse(a.value) for a in ast.walk(fn) if isinstance(a, ast.Assign)
+                           for t in a.targets
+                           for nm in ([t] if isinstance(t, ast.Name) else list(t.elts) if isinstance(t, ast.Tuple) else [])
+                           if isinstance(nm, ast.Name) and nm.id == a0.id]
+                    text += " := " + " | ".join(sorted(set(rhs)))
+                keys.append((fname, getattr(fn, "name", "<module>"), "ReferencingValue scope", "construct", text))
     # the key of resolution_cache is checked field by field (resolution_key_fields), not as text
     keys = [k for k in keys if "resolution_cache" not in k[2] and k[1] != "_LookupContext"]
     keys = sorted(set(keys))
